@@ -44,6 +44,8 @@ type Addr struct {
 	elem bool       // slice/array-backing element
 	ref  *Term      // object ref or backing ref
 	idx  *Term      // absolute element index (elem)
+	off  *Term      // slice offset and relative index when known separately (idx == off + rel); used for trigger-friendly reads
+	rel  *Term
 	root types.Type // type of the object / element
 	path []step
 	glob *ssa.Global
@@ -122,6 +124,8 @@ type Enc struct {
 	hints         []*Term
 	useWriterLog  bool
 	curCon        *FuncContract
+	topConPkg     string
+	envAlias      func(env *evalEnv, args []Val)
 	closureHook   func(fr *Frame, x *ssa.MakeClosure, fnTerm *Term, st *State)
 }
 
@@ -458,7 +462,7 @@ func (e *Enc) rootRead(st *State, a *Addr) *Term {
 	tb := e.tb
 	if a.elem {
 		r := e.elemReg(a.root)
-		return tb.Select(tb.Select(e.reg(st, r), a.ref), a.idx)
+		return e.elemRead(e.reg(st, r), a)
 	}
 	if u, ok := a.root.Underlying().(*types.Struct); ok {
 		s := e.structSortOf(a.root, u)
@@ -1391,4 +1395,61 @@ func (e *Enc) edgeLabel(fr *Frame, p *ssa.BasicBlock) string {
 		}
 	}
 	return ""
+}
+
+// applyTypeInvs handles the invariants of a value of a type with `type-invariant` / `representation` clauses.
+// mode "box": invariants are proved (obligations), representations are assumed (definitions of the ghost view of a new value).
+// mode "assume": both are assumed (receiver at method entry, value obtained by a type assertion).
+func (e *Enc) applyTypeInvs(fr *Frame, st *State, t types.Type, val *Term, mode string, guard *Term, pos token.Pos) {
+	invs := e.L.typeInvsFor(t)
+	if len(invs) == 0 {
+		return
+	}
+	for k, ti := range invs {
+		env := &evalEnv{e: e, st: st, old: st, vars: map[string]SV{"self": {t: val, typ: t}}, bound: map[string]SV{}}
+		env.pkg = e.L.typesPkg(ti.pkg)
+		c, err := env.evalBool(ti.cl.expr)
+		if err != nil {
+			e.contractError(fr, "type-invariant:"+ti.name, err)
+			continue
+		}
+		if mode == "box" && !ti.rep {
+			s2 := st.clone()
+			s2.reach = e.tb.And(st.reach, guard)
+			q := e.oblige("typeinv", fmt.Sprintf("%s.inv%d", ti.name, k+1), &s2, c, pos, e.inputVals()...)
+			q.Text = ti.cl.text
+			continue
+		}
+		e.assume(e.tb.And(st.reach, guard), c)
+	}
+}
+
+// elemRead reads a slice element. When the index is `off + rel` with a symbolic offset, the read is expressed through
+// the function elem_S(heap, ref, off, rel) (axiom: = heap[ref][off+rel]) so that quantified facts about slice elements
+// have an arithmetic-free trigger and are instantiated for indices like i+1.
+func (e *Enc) elemRead(h *Term, a *Addr) *Term {
+	tb := e.tb
+	plain := tb.Select(tb.Select(h, a.ref), a.idx)
+	if a.off == nil || a.rel == nil {
+		return plain
+	}
+	if _, isLit := a.off.intLit(); isLit {
+		return plain
+	}
+	// only if nothing was resolved syntactically: plain == select(select(base, ref), idx)
+	if plain.op != "select" || plain.args[0].op != "select" || plain.args[0].args[1] != a.ref || plain.args[1] != a.idx {
+		return plain
+	}
+	base := plain.args[0].args[0]
+	_, rowSort := arrayElemSort(base.sort)
+	_, es := arrayElemSort(rowSort)
+	name := "elem_" + sanitize(es)
+	t := tb.Func(name, []string{base.sort, "Int", "Int", "Int"}, es, base, a.ref, a.off, a.rel)
+	if !tb.declSet[name+".axiom"] {
+		tb.declSet[name+".axiom"] = true
+		H, r, o, i := tb.BoundVar("eh", base.sort), tb.BoundVar("er", "Int"), tb.BoundVar("eo", "Int"), tb.BoundVar("ei", "Int")
+		tb.axioms = append(tb.axioms, tb.Forall([]*Term{H, r, o, i},
+			tb.Eq(tb.Func(name, []string{base.sort, "Int", "Int", "Int"}, es, H, r, o, i), tb.Select(tb.Select(H, r), tb.Add(o, i)))))
+	}
+	return t
 }
